@@ -14,6 +14,7 @@ import (
 	"os"
 	"runtime"
 	"strings"
+	"sync"
 	"time"
 
 	"github.com/spf13/viper"
@@ -186,12 +187,29 @@ func conf(dir string, blockSize int) *viper.Viper {
 	return c
 }
 
+var (
+	allDirs   []string
+	allDirsMu sync.Mutex
+)
+
+// RemoveAllDirs deletes every data directory this process created (used before an os.Exit with stuck goroutines).
+func RemoveAllDirs() {
+	allDirsMu.Lock()
+	defer allDirsMu.Unlock()
+	for _, d := range allDirs {
+		os.RemoveAll(d)
+	}
+}
+
 // NewNode creates a fresh data directory and starts the application on it.
 func NewNode(blockSize int) (*Node, error) {
 	dir, err := ioutil.TempDir("", "verif-evm-")
 	if err != nil {
 		return nil, err
 	}
+	allDirsMu.Lock()
+	allDirs = append(allDirs, dir)
+	allDirsMu.Unlock()
 	n := &Node{Dir: dir, BlockSize: blockSize, Metas: map[int64]*gtypes.BlockMeta{}}
 	if err := n.open(); err != nil {
 		os.RemoveAll(dir)
